@@ -250,54 +250,11 @@ func c14Decode(c *engine.Ctx) {
 // function (the last Write, or the helper call). Sum must append to nil:
 // Sum(buf[:0]) would write the digest over bytes it may be compared with.
 func sha256Concat(v ssa.Value) (inputs []ssa.Value, at ssa.Instruction, ok bool) {
-	sum := engine.CallOf(v)
-	if sum == nil {
+	d, isD := digestOf(v, "crypto/sha256.New")
+	if !isD || d.sumArg == nil || !engine.IsNil(d.sumArg) {
 		return nil, nil, false
 	}
-	if sum.Common().IsInvoke() && sum.Common().Method.Name() == "Sum" {
-		if len(sum.Common().Args) != 1 || !engine.IsNil(sum.Common().Args[0]) || isCallTo(sum.Common().Value, "crypto/sha256.New") == nil {
-			return nil, nil, false
-		}
-		fn := sum.Parent()
-		var writes []ssa.CallInstruction
-		for _, call := range engine.Calls(fn) {
-			cc := call.Common()
-			if cc.IsInvoke() && cc.Method.Name() == "Write" && cc.Value == sum.Common().Value {
-				writes = append(writes, call)
-			}
-		}
-		// the writes form a chain in dominance order and all precede the Sum
-		for i, w := range writes {
-			if !engine.Dominates(w, sum) || engine.InCycle(w) || (i > 0 && !engine.Dominates(writes[i-1], w)) {
-				return nil, nil, false
-			}
-			inputs = append(inputs, w.Common().Args[0])
-		}
-		if len(writes) == 0 {
-			return nil, nil, false
-		}
-		return inputs, writes[len(writes)-1], true
-	}
-	h := sum.Common().StaticCallee()
-	if h == nil || len(h.Blocks) == 0 || sum.Parent() == nil || h.Pkg != sum.Parent().Pkg {
-		return nil, nil, false
-	}
-	rets := engine.Returns(h)
-	if len(rets) != 1 || len(rets[0].Results) != 1 {
-		return nil, nil, false
-	}
-	inner, _, okIn := sha256Concat(rets[0].Results[0])
-	if !okIn {
-		return nil, nil, false
-	}
-	for _, in := range inner {
-		a := argOfParam(in, sum)
-		if a == nil {
-			return nil, nil, false
-		}
-		inputs = append(inputs, a)
-	}
-	return inputs, sum, true
+	return d.inputs, d.at, true
 }
 
 func c14Hashed(c *engine.Ctx) {
@@ -312,9 +269,16 @@ func c14Hashed(c *engine.Ctx) {
 			for _, cp := range cps {
 				got = append(got, cp.Dst.String()+" ← "+cp.Src.String())
 			}
-			want := "alloc:dataWithHash[0:20] ← crypto/sha1.Sum(p:data) ; alloc:dataWithHash[20:] ← P0"
-			c.Check(err == nil && normSpans(got) == want, "C14.R4", "RSAEncryptHashed/layout", enc.Pos(), "layout [%s], specification SHA1(data) ‖ data ‖ random: [%s]", normSpans(got), want)
-			okArg := strings.HasPrefix(engine.Describe(enc.Common().Args[0]), "alloc:dataWithHash[") && lenIs(enc.Common().Args[0], enc, 255)
+			// (the block is whichever local the two copies fill: names are normalised)
+			want := "alloc:#1[0:20] ← crypto/sha1.Sum(p:data) ; alloc:#1[20:] ← P0"
+			layout := normAllocs(normSpans(got))
+			c.Check(err == nil && layout == want, "C14.R4", "RSAEncryptHashed/layout", enc.Pos(), "layout [%s], specification SHA1(data) ‖ data ‖ random: [%s]", layout, want)
+			blockBase := ""
+			if len(cps) > 0 {
+				blockBase = cps[0].Dst.Base
+			}
+			argSpan, okSpan := sc.SpanOf(enc.Common().Args[0], enc)
+			okArg := okSpan && blockBase != "" && argSpan.Base == blockBase && lenIs(enc.Common().Args[0], enc, 255)
 			c.Check(okArg, "C14.R4", "RSAEncryptHashed/rsa-input", enc.Pos(), "the RSA input must be the 255-byte data_with_hash block")
 		}
 	}
@@ -328,6 +292,14 @@ func c14Hashed(c *engine.Ctx) {
 				return call != nil && isB && b && k.Op == token.EQL
 			})
 			ret := engine.RetVal(r, 0)
+			// the decrypted block: the array rsaDecrypt fills (identified by that role,
+			// not by the name of the local); hash = block[:20], data = a prefix of block[20:]
+			var block ssa.Value
+			for _, dc := range engine.CallsTo(fn, false, "crypto.rsaDecrypt") {
+				if root, lo, ok := sliceRoot(dc.Common().Args[2]); ok && lo == 0 {
+					block = root
+				}
+			}
 			okEq := engine.GuardedBy(r, func(k engine.Cmp) bool {
 				if k.Op != token.EQL || k.Via == nil {
 					return false
@@ -337,13 +309,19 @@ func c14Hashed(c *engine.Ctx) {
 					if len(sums) != 1 || sums[0].Common().Args[0] != ret {
 						continue
 					}
-					if strings.HasSuffix(engine.Describe(pair[1]), "dataWithHash[:20]") {
-						return true
+					if sl, isSl := engine.Unwrap(pair[1]).(*ssa.Slice); isSl && block != nil {
+						hi, isK := engine.ConstInt(sl.High)
+						if root, lo, ok := sliceRoot(sl); ok && root == block && lo == 0 && sl.High != nil && isK && hi == 20 {
+							return true
+						}
 					}
 				}
 				return false
 			})
-			okFrom := strings.Contains(engine.Describe(ret), "dataWithHash[20:]")
+			okFrom := false
+			if root, lo, ok := sliceRoot(ret); ok && block != nil && root == block && lo == 20 {
+				okFrom = true
+			}
 			// the guess must range over every possible data length 0..235 (necessary: the interval of the
 			// candidate length reaches both ends)
 			if sl, isSl := ret.(*ssa.Slice); isSl && sl.High != nil {
